@@ -16,6 +16,9 @@ theorem wrapper_stores_eq :
     Gen.C19.wrapperStoresBeforeProc = [Gen.C19.workerRunning] ∧ Gen.C19.wrapperStoresAfterProc = [Gen.C19.workerStopped] := by
   decide
 
+/-- **bridging lemma**: the timed join sleeps `pollMs` ms per iteration and adds the same amount to its elapsed counter -/
+theorem join_poll_eq : Gen.C19.joinElapsedStepMs = pollMs ∧ Gen.C19.joinSleepNs = pollMs * 1000000 := by decide
+
 /-- STOPPED is in the state field exactly when the thread wrapper has stored it after `proc` returned -/
 def Wk.StateOk (w : Wk) : Prop := w.state = .stopped ↔ (w.th = .stored ∨ w.th = .exited)
 
